@@ -108,7 +108,7 @@ fn main() {
                 }
                 phys::replay(ops, imp)
             } else if let Some(dir) = arg(&args, "--huge") {
-                phys::huge(dir, ops, imp)
+                phys::huge_v(dir, ops, imp, args.iter().any(|a| a == "--v4"))
             } else {
                 let cfg = phys::PhysCfg {
                     many_entries: args.iter().any(|a| a == "--many-entries"),
